@@ -174,6 +174,24 @@ func CheckProperty(cfg *Config, id string) int {
 		byLabel[v.Label] = append(byLabel[v.Label], v)
 	}
 	sort.Strings(labels)
+	if cfg.Verbose {
+		seenLN := map[string]int{}
+		var order []string
+		for _, v := range violations {
+			k := v.Finding + " | " + v.Label + " | " + v.Note
+			if seenLN[k] == 0 {
+				order = append(order, k)
+			}
+			seenLN[k]++
+		}
+		for i, k := range order {
+			if i >= 60 {
+				fmt.Printf("  ... %d more distinct candidates\n", len(order)-i)
+				break
+			}
+			fmt.Printf("  candidate x%d: %s\n", seenLN[k], k)
+		}
+	}
 	var confirmed []string
 	var unconfirmed []string
 	nReplayed := 0
@@ -337,7 +355,7 @@ func writeEvidence(cfg *Config, spec *PropSpec, ld *Loaded, res *RunResult, s ev
 		"covers":                        s.covers,
 		"solver": map[string]interface{}{
 			"name": cfg.Solver, "version": solverVersion(cfg.Solver), "queries": res.Solver.Queries, "sat": res.Solver.Sat,
-			"unsat": res.Solver.Unsat, "unknown": res.Solver.Unknown, "seconds": res.Solver.Dur.Seconds(), "max_query_seconds": res.Solver.MaxQuery.Seconds(),
+			"unsat": res.Solver.Unsat, "unknown": res.Solver.Unknown, "unknown_retried_on_fallback_solvers": res.Solver.Retries, "rescued_by_fallback": res.Solver.Rescued, "seconds": res.Solver.Dur.Seconds(), "max_query_seconds": res.Solver.MaxQuery.Seconds(),
 		},
 		"ssa_instructions_executed": res.Steps,
 		"known_findings_matched":    s.known,
